@@ -57,5 +57,5 @@ Probes == <<
 Emit ==
   PrintT(<<"REPLAY", ToJson([side |-> side, calls |-> calls, opts |-> opts,
                               probes |-> IF Len(calls) = 1 THEN Probes ELSE <<>>,
-                              texts |-> IF side = "print" THEN [i \in DOMAIN Probes |-> Print(Probes[i], opts)] ELSE <<>>])>>)
+                              texts |-> IF side = "print" THEN [i \in DOMAIN Probes |-> PrintDatum(Probes[i], opts)] ELSE <<>>])>>)
 =============================================================================
